@@ -60,6 +60,9 @@ checks = {
  "C07": ("model_checking", "xstate", E2,
          "Registry histories: explicit-state BFS over RegisterProprietaryMACCommand(direction x {0x7F,0x80,0xFF} x size {-1,0,1,2,16}) from the reset registry (depth 2 quick / 3 thorough) against a map model, with all 256 CIDs x 2 directions and the stream framing of the registered CIDs compared in every state. Values: every 8-bit/boolean field of every MAC payload over its complete Go domain (one field at a time x 3 base tuples, all pairs for two-field payloads), frequency windows and single-bit values (thorough: every multiple of 50 Hz), DeviceTimeAns boundary durations; oracle lossless-or-error and must-accept ranges. Streams: all sequences of <= 3 (thorough 4) commands over the complete CID set with adversarial payloads, all sequences over a size-class alphabet up to 15 bytes, fills to 15/242 bytes, and 3-byte strings against the specification framer.",
          "The full set of command sequences up to 15 bytes (~10^14) is out of reach; it is covered by length <= 3/4 over all CIDs plus all sequences over one CID per payload-size class (the framer depends on CIDs only through their size)."),
+ "C05": ("model_checking", "xstate", E2,
+         "Explicit-state BFS over the sender/receiver operation alphabet (EncryptFRMPayload, EncryptFOpts, SetMIC, Transfer = marshal + fresh unmarshal, SetFCnt32, ValidateMIC, DecryptFOpts, DecryptFRMPayload and their wrong-key / wrong-parameter variants) from 144 initial frames, depth 8 quick / 10 thorough, on real frames paired with the reference model's abstract frame stepped in lock-step: every error/no-error, every Validate verdict, the serialisation after every transition and the decoded command lists are compared. Tamper part: every single-bit flip of every serialised frame and every single-parameter mismatch (all key bits, upper FCnt bits, ConfFCnt, txDR, txCh, version, direction) against the specification MIC of the received content.",
+         "Fixed distinguishing keys/counters (bit walks in the tamper part); depth bound 8/10 covers the canonical 8-step history and every reordering / repetition of its steps up to that length."),
 }
 
 def load_extra():
